@@ -1,25 +1,25 @@
 /-
-  Property C01 — a kernel-checked counterexample for self-loop branches (round 5).
+  Property C01 — the self-loop witness, worked out in the kernel (round 5; positive since the repair
+  of node_analysis.py).
 
-  `C01_sound` and `C01_complete` carry the hypothesis `WF.no_self_loop` (no branch connects a node
-  to itself).  The hypothesis is not removable for the current code: `node_matrix_element(i, i)` sums
-  the admittances of all branches *connected to* `i`, so a branch from `i` to `i` is added to the
-  diagonal although it is electrically inert (open finding C01).  Here the smallest instance is worked
-  out over ℚ for the network of the harness corpus
+  Before the repair `node_matrix_element(i, i)` summed the admittances of all branches *connected to*
+  `i`, so a branch from `i` to `i` was added to the diagonal although it is electrically inert; this
+  file then carried the counterexample `C01_self_loop_counterexample` (A = [[1]], reported φ₁ = −1,
+  KCL residual 1/2).  The repaired code skips self-loops on the diagonal and accumulates the source
+  incidence entries; the general theorems without the hypothesis `WF.no_self_loop` are
+  `C01_sound_selfloops` / `C01_complete_selfloops` (CC/Properties/C01SelfLoop.lean).  Here the same
+  smallest instance is worked out over ℚ for the network of the harness corpus
 
       I(1,0) = 1 A (ideal current source),  R(1,0) = 2 Ω,  S(1,1) = 2 Ω,   reference node 0
 
   The index maps and the matrix of this network are computed by rewriting (`simp` with the
   `List.mergeSort` equations; kernel reduction with `decide` gets stuck on the well-founded
-  `mergeSort` inside `Net.nodeLabels`):  A = [[1]] (should be [[1/2]]), b = [-1].
+  `mergeSort` inside `Net.nodeLabels`):  A = [[1/2]], b = [-1].
 
-    C01_self_loop_counterexample        the network is accepted, its circuit equations have the
-                                        solution φ₁ = −2, the code's matrix equation has exactly the
-                                        solution [-1], and the reported values violate KCL at node 1
-    C01_sound_needs_no_self_loop        hence `C01_sound` without `no_self_loop` is FALSE
-    C01_complete_needs_no_self_loop     and so is `C01_complete`
-  The provable versions are `C01_sound` / `C01_complete` themselves (hypothesis `Net.WF`, which is
-  `Network.__post_init__` plus "no self-loop"; satisfiable: `exampleNet_wf`).
+    C01_self_loop_witness               the network is accepted, the code's matrix equation has exactly
+                                        the solution [-2], the values reported from it (φ₁ = −2) solve
+                                        the circuit equations, and the exact solution of the circuit
+                                        satisfies the matrix equation
 -/
 import CC.Properties.C01
 set_option linter.unusedSectionVars false
@@ -46,10 +46,9 @@ theorem exampleSelfLoop_vsIds : exampleSelfLoop.vsIds = [] := by
 theorem exampleSelfLoop_vsSorted : exampleSelfLoop.vsSorted = [] := by
   simp [Net.vsSorted, exampleSelfLoop_vsIds, Net.byIds]
 
-theorem exampleSelfLoop_mnaA : exampleSelfLoop.mnaA = [[1]] := by
+theorem exampleSelfLoop_mnaA : exampleSelfLoop.mnaA = [[1/2]] := by
   simp [Net.mnaA, exampleSelfLoop_nodes, exampleSelfLoop_vsSorted, Net.Yentry]
   simp [Net.nonVS, exampleSelfLoop, Elem.isIdealVS, Elem.Yfin]
-  norm_num
 
 theorem exampleSelfLoop_csSorted : exampleSelfLoop.csSorted
     = [{ n1 := "1", n2 := "0", id := "I", e := .thevenin 0 1 }] := by
@@ -65,35 +64,18 @@ theorem exampleSelfLoop_mnaB : exampleSelfLoop.mnaB = [-1] := by
 
 theorem exampleSelfLoop_solution (x : List ℚ)
     (hx : x.length = exampleSelfLoop.nodes.length + exampleSelfLoop.vsIds.length)
-    (h : matVec exampleSelfLoop.mnaA x = exampleSelfLoop.mnaB) : x = [-1] := by
+    (h : matVec exampleSelfLoop.mnaA x = exampleSelfLoop.mnaB) : x = [-2] := by
   rw [exampleSelfLoop_nodes, exampleSelfLoop_vsIds] at hx
   rw [exampleSelfLoop_mnaA, exampleSelfLoop_mnaB] at h
   match x, hx with
   | [a], _ =>
     simp [matVec, dotL] at h
-    rw [h]
+    have : a = -2 := by linear_combination 2 * h
+    rw [this]
 
-theorem exampleSelfLoop_pot : (exampleSelfLoop.reportOf [-1]).pot "1" = -1 := by
+theorem exampleSelfLoop_pot : (exampleSelfLoop.reportOf [-2]).pot "1" = -2 := by
   simp only [Net.reportOf, Net.pot, Net.solOf, exampleSelfLoop_nodes]
   simp [exampleSelfLoop, idxOf?]
-
-theorem exampleSelfLoop_iI : (exampleSelfLoop.reportOf [-1]).i "I" = 1 := by
-  simp only [Net.reportOf, Net.pot, Net.solOf, exampleSelfLoop_nodes]
-  simp [exampleSelfLoop, Net.get?, Net.curOf, Elem.isIdealVS, Elem.isIdealCS, Elem.Ival]
-
-theorem exampleSelfLoop_iR : (exampleSelfLoop.reportOf [-1]).i "R" = -1/2 := by
-  simp only [Net.reportOf, Net.solOf, exampleSelfLoop_nodes]
-  simp [exampleSelfLoop, Net.get?, Net.curOf, Elem.isIdealVS, Elem.isIdealCS, Elem.isCS, Elem.Ival, Elem.Zfin,
-    Net.vOf, Net.pot, idxOf?]
-
-/-- Kirchhoff's current law at node `1` is violated by what the model reports: 1 A leaves through the
-source, −1/2 A through `R`, and the self-loop contributes nothing — 1/2 A is missing -/
-theorem exampleSelfLoop_kcl :
-    kclResidual exampleSelfLoop (exampleSelfLoop.reportOf [-1]) "1" = 1/2 := by
-  have e : kclResidual exampleSelfLoop (exampleSelfLoop.reportOf [-1]) "1"
-      = (1 : ℚ) * (exampleSelfLoop.reportOf [-1]).i "I" + ((1 : ℚ) * (exampleSelfLoop.reportOf [-1]).i "R" + 0) := by
-    simp [kclResidual, exampleSelfLoop, incidence, Elem.physCurrent, Elem.isLossy, Elem.kind]
-  rw [e, exampleSelfLoop_iI, exampleSelfLoop_iR]; norm_num
 
 /-- the exact solution of the circuit equations of the same network: `φ₁ = −2` (the self-loop is inert) -/
 def exampleSelfLoopReport : Report String ℚ :=
@@ -115,67 +97,44 @@ theorem exampleSelfLoopReport_solves : CircuitEqs exampleSelfLoop exampleSelfLoo
     rcases hn with rfl | rfl | rfl | rfl | rfl | rfl | rfl <;>
       simp [kclResidual, exampleSelfLoop, incidence, Elem.physCurrent, Elem.isLossy, Elem.kind, exampleSelfLoopReport]
 
-/-- **C01 (self-loop counterexample).**  A concrete network that the library accepts, on which the
-modelled code (`Net.mnaA`, `Net.mnaB`, accessors) reports values that do not solve the circuit.
+/-- **C01 (self-loop witness).**  The concrete network on which the code before the self-loop repair
+reported φ₁ = −1: the library accepts it, and the modelled code (`Net.mnaA`, `Net.mnaB`, accessors)
+now reports the solution of the circuit.
 About the code: the statement is about the hand-written model `CC/Model/{Net,MNA}.lean` (tied to
 node_analysis.py by the `C01_gen_*` theorems and the `mna` correspondence; the harness runs the real
-code on this very network on every run and sees φ₁ = −1).  It does not say which of the two readings
-of a self-loop the authors intended; under the Spec (`incidence` = +1 − 1 = 0) it is inert. -/
-theorem C01_self_loop_counterexample :
+code on this very network on every run and judges it by the Spec oracle). -/
+theorem C01_self_loop_witness :
     -- accepted by `Network.__post_init__`, distinct identifiers
     exampleSelfLoop.check = .ok () ∧
     -- the circuit equations have a solution (potential −2 at node 1) …
     CircuitEqs exampleSelfLoop exampleSelfLoopReport ∧
-    -- … the matrix equation the code builds has exactly the solution `[-1]` …
+    -- … the matrix equation the code builds has exactly the solution `[-2]` …
     (∀ x : List ℚ, x.length = exampleSelfLoop.nodes.length + exampleSelfLoop.vsIds.length →
-      (matVec exampleSelfLoop.mnaA x = exampleSelfLoop.mnaB ↔ x = [-1])) ∧
-    -- … and what the accessors report from it is NOT a solution of the circuit (soundness fails) …
+      (matVec exampleSelfLoop.mnaA x = exampleSelfLoop.mnaB ↔ x = [-2])) ∧
+    -- … what the accessors report from it is that solution of the circuit (the self-loop is inert) …
     (∀ x : List ℚ, x.length = exampleSelfLoop.nodes.length + exampleSelfLoop.vsIds.length →
       matVec exampleSelfLoop.mnaA x = exampleSelfLoop.mnaB →
-      (exampleSelfLoop.reportOf x).pot "1" = -1 ∧
-      kclResidual exampleSelfLoop (exampleSelfLoop.reportOf x) "1" = 1/2 ∧
-      ¬ CircuitEqs exampleSelfLoop (exampleSelfLoop.reportOf x)) ∧
-    -- … while the true solution does not satisfy the matrix equation (completeness fails)
-    matVec exampleSelfLoop.mnaA (exampleSelfLoop.pack exampleSelfLoopReport.toSol) ≠ exampleSelfLoop.mnaB := by
-  refine ⟨?_, exampleSelfLoopReport_solves, ?_, ?_, ?_⟩
-  · rw [Net.check_ok_iff, exampleSelfLoop_nodeLabels]
+      (exampleSelfLoop.reportOf x).pot "1" = -2 ∧
+      kclResidual exampleSelfLoop (exampleSelfLoop.reportOf x) "1" = 0 ∧
+      CircuitEqs exampleSelfLoop (exampleSelfLoop.reportOf x)) ∧
+    -- … and the exact solution satisfies the matrix equation (nothing is lost)
+    matVec exampleSelfLoop.mnaA (exampleSelfLoop.pack exampleSelfLoopReport.toSol) = exampleSelfLoop.mnaB := by
+  have hchk : exampleSelfLoop.zero ∈ exampleSelfLoop.nodeLabels ∧ exampleSelfLoop.ids.Nodup := by
+    rw [exampleSelfLoop_nodeLabels]
     exact ⟨by simp [exampleSelfLoop], by decide⟩
+  refine ⟨?_, exampleSelfLoopReport_solves, ?_, ?_, ?_⟩
+  · rw [Net.check_ok_iff]; exact hchk
   · intro x hx
     refine ⟨exampleSelfLoop_solution x hx, ?_⟩
     rintro rfl
     rw [exampleSelfLoop_mnaA, exampleSelfLoop_mnaB]
     simp [matVec, dotL]
   · intro x hx h
+    have hs := (sound_all exampleSelfLoop x hchk.2 hchk.1 hx h).2.2
     obtain rfl := exampleSelfLoop_solution x hx h
-    refine ⟨exampleSelfLoop_pot, exampleSelfLoop_kcl, ?_⟩
-    intro hc
-    have := hc.kcl "1" (by simp [Net.allLabels, exampleSelfLoop])
-    rw [exampleSelfLoop_kcl] at this
-    norm_num at this
+    exact ⟨exampleSelfLoop_pot, hs.kcl "1" (by simp [Net.allLabels, exampleSelfLoop]), hs⟩
   · rw [Net.pack, exampleSelfLoop_nodes, exampleSelfLoop_vsSorted, exampleSelfLoop_mnaA, exampleSelfLoop_mnaB]
     simp [matVec, dotL, Report.toSol, exampleSelfLoopReport]
-
-/-- **`C01_sound` needs `no_self_loop`.**  The soundness statement with `Net.WF` weakened to what
-`Network.__post_init__` checks (`N.check = ok`) is false. -/
-theorem C01_sound_needs_no_self_loop :
-    ¬ ∀ (N : Net String ℚ) (x : List ℚ), N.check = .ok () →
-        x.length = N.nodes.length + N.vsIds.length → matVec N.mnaA x = N.mnaB →
-        CircuitEqs N (N.reportOf x) := by
-  intro hall
-  obtain ⟨hc, _, hiff, hbad, _⟩ := C01_self_loop_counterexample
-  have hx : ([-1] : List ℚ).length = exampleSelfLoop.nodes.length + exampleSelfLoop.vsIds.length := by
-    rw [exampleSelfLoop_nodes, exampleSelfLoop_vsIds]; rfl
-  have hs := (hiff [-1] hx).mpr rfl
-  exact (hbad [-1] hx hs).2.2 (hall exampleSelfLoop [-1] hc hx hs)
-
-/-- **`C01_complete` needs `no_self_loop`.**  The completeness statement with `Net.WF` weakened to
-`N.check = ok` is false: the true solution of the example does not satisfy the matrix equation. -/
-theorem C01_complete_needs_no_self_loop :
-    ¬ ∀ (N : Net String ℚ) (R : Report String ℚ), N.check = .ok () → CircuitEqs N R →
-        matVec N.mnaA (N.pack R.toSol) = N.mnaB := by
-  intro hall
-  obtain ⟨hc, hsol, _, _, hne⟩ := C01_self_loop_counterexample
-  exact hne (hall exampleSelfLoop _ hc hsol)
 
 /-- the only hypothesis of `Net.WF` the example fails is `no_self_loop` -/
 example : exampleSelfLoop.ids.Nodup ∧ exampleSelfLoop.zero ∈ exampleSelfLoop.nodeLabels ∧
@@ -185,4 +144,3 @@ example : exampleSelfLoop.ids.Nodup ∧ exampleSelfLoop.zero ∈ exampleSelfLoop
   exact h { n1 := "1", n2 := "1", id := "S", e := .norton 2 0 } (by simp [exampleSelfLoop]) rfl
 
 end CC
-
